@@ -179,6 +179,8 @@ def main() -> int:
     # ---- classify
     os.makedirs(os.path.join(VERIF, "replays"), exist_ok=True)
     violations: list[str] = []
+    bp = os.path.join(VERIF, "baseline", f"{pid}.json")
+    baseline = set(json.load(open(bp))["discharged_labels"]) if os.path.exists(bp) else set()
     conc_cache: dict = {}
     standin_cache: dict = {}
     bounded_seen: dict = {}
@@ -260,7 +262,8 @@ def main() -> int:
                     known_seen.append(f"KNOWN-FINDING: property={pid} {kf['id']} {r['label']}: {kf['what']}")
                 continue
             rout = (rout + "\n" + why)[-3000:]
-        if r["status"] == UNKNOWN and r["reason"] in ("timeout", "canceled") and reproduced is not True:
+        if r["status"] == UNKNOWN and r["reason"] in ("timeout", "canceled") and reproduced is not True and r["label"] not in baseline:
+            # a resource outcome on an obligation that is not known to hold on the unchanged tree: undecided, never a violation
             undecided.append(f"{r['label']} [{r['path'][-80:]}]: solver {r['reason']}")
             continue
         if reproduced is False and r["status"] == REFUTED:
@@ -320,12 +323,21 @@ def main() -> int:
             "undecided": undecided,
             "checker_faults": faults,
             "repo_tree_hash": repo.tree_hash(),
+            "baseline_labels": len(baseline),
             "explanation": cfg.get("explanation", ""),
         },
         "assumptions": assumptions,
         "wall_s": round(time.time() - t0, 2),
         "violations": len(violations),
     }
+    if os.environ.get("VERIF_WRITE_BASELINE") == "1" and not violations and not faults and not undecided and not a.only:
+        os.makedirs(os.path.join(VERIF, "baseline"), exist_ok=True)
+        proved_labels = sorted({r["label"] for r in all_results if r["status"] == PROVED})
+        not_all = {r["label"] for r in all_results if r["status"] != PROVED}
+        with open(bp, "w") as f:
+            json.dump({"property": pid, "repo_tree_hash": repo.tree_hash(),
+                       "comment": "obligation labels discharged on the unchanged tree (all path instances); an obligation listed here that is no longer discharged is reported as a violation even when the solver only times out",
+                       "discharged_labels": [x for x in proved_labels if x not in not_all]}, f, indent=0)
     os.makedirs(os.path.join(VERIF, "evidence"), exist_ok=True)
     with open(os.path.join(VERIF, "evidence", f"{pid}.json"), "w") as f:
         json.dump(ev, f, indent=1, default=str)
